@@ -55,4 +55,21 @@ for ps_new in (0.5e-3, 2e-3, 0.8e-3):
         p = smooth_plane((64, 64))
         q = p.resample(ps_new)
         a.check(np.allclose(q.pixelscale, (ps_new, ps_new)) and q.amplitude.shape == tuple(int(np.ceil(64 * 1e-3 / ps_new)) for _ in range(2)), {'resample': ps_new})
-emit([a])
+
+b = Bounded('plane.Plane.rescale::every_plane_can_be_rescaled', 'planes with float / int / bool masks (1 and 2 segments) and planes that are themselves the result of a rescale; scales 0.5 1 1.5 2',
+            'the operation applies to every plane: result has ceil(n s) samples, pixel scale / s, binary mask with the same segment structure')
+for kind, nseg, s in itertools.product(('float', 'int', 'bool', 'rescaled'), (1, 2), (0.5, 1, 1.5, 2)):
+    with b.case({'mask': kind, 'nseg': nseg, 'scale': s}):
+        p = smooth_plane((48, 40), nseg)
+        if kind == 'rescaled':
+            p = p.rescale(1.25)
+        elif kind != 'float':
+            m = p.mask if nseg == 1 else p._mask
+            p = lentil.Pupil(amplitude=p.amplitude, opd=p.opd, mask=m.astype(kind), pixelscale=1e-3, focal_length=5.0)
+        n = p.amplitude.shape
+        q = p.rescale(s)
+        N = tuple(int(np.ceil(k * s)) for k in n)
+        ok = q.amplitude.shape == N and q.opd.shape == N and q.mask.shape[-2:] == N and q.mask.shape[:-2] == p.mask.shape[:-2]
+        ok = ok and np.allclose(np.asarray(q.pixelscale) * s, p.pixelscale) and set(np.unique(q.mask).tolist()) <= {0, 1} and q.mask.any()
+        b.check(bool(ok), {'mask': kind, 'nseg': nseg, 'scale': s, 'shape': q.amplitude.shape})
+emit([a, b])
